@@ -13,9 +13,7 @@ def judge (st : St) : Bool × String :=
   if C03.ok tr then (true, "")
   else match firstFail [] [] tr 0 with
     | some (i, why) =>
-      if st.gaps.reverse.getD i false then
-        (false, s!"C03 step {i}: F03a location-invalid-by-the-text accepted ({why}): the library tests three substrings, not the host")
-      else (false, s!"C03 step {i}: {why}")
+      (false, s!"C03 step {i}: {why}")
     | none => (false, "C03 judge failed")
 
 def main : IO UInt32 := mainLoop genCfg specCfg judge
